@@ -61,6 +61,8 @@ type DuoCfg struct {
 	// NATA/NATB put the host behind a NAT of that kind (0 = none, otherwise simnet.NATKind+1) and add a
 	// STUN server (srflx candidates are then gathered with a real STUN exchange).
 	NATA, NATB int
+	// RelayA/RelayB give the agent a relay candidate (TURN stub allocating on a relay host).
+	RelayA, RelayB bool
 }
 
 // NewDuo builds the world and both agents (not yet gathering).
@@ -81,7 +83,8 @@ func NewDuo(c *core.Ctx, cfg DuoCfg) (*Duo, error) {
 	d.HB = d.W.SimpleHost("B", cfg.AddrsB...)
 	natPriv := map[netip.Addr]bool{}
 	var stunOpt []ice.AgentOption
-	if cfg.NATA != 0 || cfg.NATB != 0 {
+	if cfg.NATA != 0 || cfg.NATB != 0 || cfg.RelayA || cfg.RelayB {
+		// (a turn: URL also serves as STUN server for srflx gathering)
 		srv := d.W.SimpleHost("S", "203.0.113.5")
 		d.Stun = NewStunServer(srv, "203.0.113.5:3478")
 		u, _ := stun.ParseURI("stun:203.0.113.5:3478")
@@ -114,6 +117,17 @@ func NewDuo(c *core.Ctx, cfg DuoCfg) (*Duo, error) {
 		}
 		if h.NAT != nil {
 			o = append(o, stunOpt...)
+		}
+		if (name == "A" && cfg.RelayA) || (name == "B" && cfg.RelayB) {
+			ip := map[string]string{"A": "203.0.113.9", "B": "203.0.113.10"}[name]
+			rh := d.W.SimpleHost("R"+name, ip)
+			ts := &TurnStub{W: d.W, RelayHost: rh, RelayIP: ip}
+			u, _ := stun.ParseURI("turn:203.0.113.5:3478?transport=udp")
+			u.Username, u.Password = "user", "pass"
+			// the turn: URL doubles as STUN server for srflx gathering (a second stun: URL would start a
+			// second, indistinguishable srflx gatherer: their listens could not be ordered canonically)
+			urls := []*stun.URI{u}
+			o = append(o, ts.Option(), ice.WithUrls(urls), ice.WithRelayAcceptanceMinWait(0), ice.WithSTUNGatherTimeout(300*time.Millisecond))
 		}
 		return NewAgent(name, h, d.Start, append(o, opts...)...)
 	}
